@@ -32,6 +32,25 @@ Fixpoint best_makespan (fs : list fname) (fuel : nat) (I : instance) (w : world 
     end
   end.
 
+(** Size of the same decision tree: (complete histories, nodes, dead ends = incomplete
+    states without an available operation). Executable only: it ties the exact
+    SET of operations the filter lets through in every state of every filtered
+    history to the implementation's (two trees of the same shape). *)
+Definition add3 (a b : N * N * N) : N * N * N :=
+  let '(x1, y1, z1) := a in let '(x2, y2, z2) := b in ((x1 + x2)%N, (y1 + y2)%N, (z1 + z2)%N).
+Fixpoint tree_size (fs : list fname) (fuel : nat) (I : instance) (w : world unit) : N * N * N :=
+  match fuel with
+  | O => (0, 1, 1)%N
+  | S f =>
+    match raw_ready I (core w) with
+    | [] => if is_complete I (sched (core w)) then (1, 1, 0)%N else (0, 1, 1)%N
+    | _ => match choices I (available I (core w) fs) with
+           | [] => (0, 1, 1)%N
+           | cs => fold_left (fun acc c => add3 acc (tree_size fs f I (choice_step I w c))) cs (0, 1, 0)%N
+           end
+    end
+  end.
+
 (** best makespan reachable when only operations surviving the
     dominated-operations filter are ever dispatched *)
 Definition opt_filtered (I : instance) : option Z :=
